@@ -199,8 +199,8 @@ macro_rules | `(tactic| cl_leaf) => `(tactic| exact senderPush_cl_nil _ _ rfl)
 /-! ## archetype writes -/
 
 /-- the archetype read is the one stored -/
-theorem getArch_spec {I : World → Prop} (i : Nat) (s : String) :
-    Hoare I (getArch i s) (fun a w => I w ∧ w.archs.get i = some a) (PanicOnly I) := by
+theorem getArch_spec {I E : World → Prop} (i : Nat) (s : String) :
+    Hoare I (getArch i s) (fun a w => I w ∧ w.archs.get i = some a) (PanicOnly E) := by
   refine ⟨fun w hw => ?_⟩
   rw [run_getArch']
   cases h : w.archs.get i with
@@ -439,5 +439,281 @@ theorem bumpCell_cl (ai row c : Nat) : KP (CL X) (bumpCell ai row c) := by
         cases ho
         exact ⟨cellSers_set_same _ _ _ _ hcol (map_ser_set _ _ _ _ hx rfl),
           (hw.1.cols ai a hw.2).set_col hcol (by simp) rfl rfl⟩
+
+/-! ## `move_entity`, `remove_entity` -/
+
+
+theorem Hoare.at_state {α : Type} {P : World → Prop} {m : M α} {Q : α → World → Prop} {E : Err → World → Prop}
+    (h : ∀ w0, P w0 → Hoare (fun w => w = w0) m Q E) : Hoare P m Q E :=
+  ⟨fun w hw => (h w hw).run w rfl⟩
+
+theorem Hoare.and_pure {α : Type} {P : World → Prop} {m : M α} {Q : α → World → Prop} {E : Err → World → Prop}
+    {p : Prop} (h : Hoare P m Q E) : Hoare (fun w => P w ∧ p) m (fun a w => Q a w ∧ p) E := by
+  refine ⟨fun w hw => ?_⟩
+  have := h.run w hw.1
+  generalize m.run.run w = res at this
+  obtain ⟨(e|a), w'⟩ := res
+  · exact this
+  · exact ⟨this, hw.2⟩
+
+/-- the counting half for the slab `A'` the loop is about to write, while the real slab is still `A` -/
+def CLat (A A' : Slab Arch) (Y : List Nat) (w : World) : Prop :=
+  w.archs = A ∧ CLN A' w.queue w.cdrops w.nextCSerial Y
+
+theorem dropCellIdx_at {E : Err → World → Prop} (A A' : Slab Arch) (c : Nat) (x : Cell) (Y : List Nat) :
+    Hoare (CLat A A' (x.ser :: Y)) (dropCellIdx c x) (fun _ => CLat A A' Y) E := by
+  refine ⟨fun w h => ?_⟩
+  rw [run_dropCellIdx]
+  show CLat A A' Y (dropCellW (w.compTy c) x w)
+  unfold dropCellW
+  split
+  · exact ⟨h.1, h.2.dropped _ _⟩
+  · exact ⟨h.1, h.2.forget _⟩
+
+/-- the tail of the two-archetype branch of `move_entity`: the dropped cells are logged, then the two archetypes are
+    written back -/
+theorem move_tail {Y : List Nat} {w0 : World} {i j : Nat} {sa da : Arch} (hcl : CL Y w0) (hij : i ≠ j)
+    (hsa : w0.archs.get i = some sa) (hda : w0.archs.get j = some da) (sa' da' : Arch) (isa' : sa'.index = i)
+    (ida' : da'.index = j) (csa' : ColsOk sa') (cda' : ColsOk da') (zs : List (Nat × Cell))
+    (hcount : ∀ s, (cellSers sa'.cols).count s + (cellSers da'.cols).count s + (zs.map (·.2.ser) ++ X).count s
+      ≤ (cellSers sa.cols).count s + (cellSers da.cols).count s + Y.count s)
+    (rest : M Unit) (hrest : KP (CL X) rest) :
+    Hoare (fun w => w = w0)
+      (do
+        forIn zs PUnit.unit fun x _ => do
+          dropCellIdx x.fst x.snd
+          pure (ForInStep.yield PUnit.unit)
+        setArch sa'
+        setArch da'
+        rest) (fun _ => CL X) (PanicOnly (CL X)) := by
+  refine Hoare.bind (R := fun _ w => CLat w0.archs ((w0.archs.set i sa').set j da') X w) ?_ fun _ => ?_
+  · refine Hoare.pre (Hoare.forIn_list_sfx (fun rest (_ : PUnit) w =>
+      CLat w0.archs ((w0.archs.set i sa').set j da') (rest.map (·.2.ser) ++ X) w)
+      (fun p rest _ => ?_) _ PUnit.unit) (fun w hw => ?_)
+    · obtain ⟨c, x⟩ := p
+      exact Hoare.bind (dropCellIdx_at _ _ c x _) fun _ => Hoare.pure fun _ h => h
+    · subst hw
+      exact ⟨rfl, hcl.cln.set_two hij hsa hda sa' da' hcount⟩
+  · refine Hoare.bind (R := fun _ w => w.archs = w0.archs.set i sa' ∧
+      CLN ((w0.archs.set i sa').set j da') w.queue w.cdrops w.nextCSerial X) ⟨fun w hw => ?_⟩ fun _ => ?_
+    · refine ⟨?_, hw.2⟩
+      show w.archs.set sa'.index _ = _
+      rw [hw.1, isa']
+    refine Hoare.bind (R := fun _ => CL X) ⟨fun w hw => ?_⟩ fun _ => hrest
+    show CLF (w.archs.set da'.index _) w.queue w.cdrops w.nextCSerial X
+    rw [hw.1, ida']
+    obtain ⟨i1, i2⟩ := idx_cols_set hcl.idx hcl.cols isa' csa'
+    obtain ⟨j1, j2⟩ := idx_cols_set i1 i2 ida' cda'
+    exact hw.2.clf j1 j2
+
+theorem moveEntity_cl (src : Loc) (dst : Nat) (new : List (Nat × Cell)) :
+    LK (CL (new.map (·.2.ser) ++ X)) (moveEntity src dst new) (CL X) := by
+  unfold moveEntity
+  split
+  · -- `Column::assign` in place
+    refine Hoare.bind (getArch_spec _ _) fun a0 => ?_
+    refine Hoare.at_state fun w0 hw0 => ?_
+    obtain ⟨hcl, hget⟩ := hw0
+    have hidx0 : a0.index = src.arch := hcl.idx _ _ hget
+    dsimp only
+    refine Hoare.bind (R := fun (a : Arch) w => CLat w0.archs (w0.archs.set src.arch a) X w ∧ a.index = src.arch ∧
+      ColsOk a) ?_ fun a => ?_
+    · refine Hoare.pre (Hoare.forIn_list_sfx (fun rest (a : Arch) w =>
+        CLat w0.archs (w0.archs.set src.arch a) (rest.map (·.2.ser) ++ X) w ∧ a.index = src.arch ∧ ColsOk a)
+        (fun p rest a => ?_) new a0) (fun w hw => ?_)
+      · obtain ⟨c, x⟩ := p
+        dsimp only
+        split
+        · exact hoare_ubErr_bind _ _
+        · rename_i j hj
+          split
+          · exact hoare_ubErr_bind _ _
+          · rename_i col' old hcol
+            obtain ⟨col, hc1, hc2⟩ : ∃ col, a.cols[j]? = some col ∧ assignCol col src.row x = some (col', old) := by
+              cases hcj : a.cols[j]? with
+              | none => rw [hcj] at hcol; cases hcol
+              | some col => rw [hcj] at hcol; exact ⟨col, rfl, hcol⟩
+            unfold assignCol at hc2
+            cases hrow : col[src.row]? with
+            | none => rw [hrow] at hc2; cases hc2
+            | some o =>
+              rw [hrow] at hc2
+              simp only [Option.some.injEq, Prod.mk.injEq] at hc2
+              obtain ⟨rfl, rfl⟩ := hc2
+              refine Hoare.bind (R := fun _ w => CLat w0.archs (w0.archs.set src.arch
+                  { a with cols := a.cols.set j (col.set src.row x) }) (rest.map (·.2.ser) ++ X) w ∧
+                  a.index = src.arch ∧ ColsOk a)
+                (Hoare.pre (Hoare.and_pure (dropCellIdx_at _ _ c o _)) fun w hw => ?_) fun _ => Hoare.pure fun w hw => ?_
+              · obtain ⟨⟨h1, h2⟩, h3, h4⟩ := hw
+                refine ⟨⟨h1, ?_⟩, h3, h4⟩
+                have hg : (w0.archs.set src.arch a).get src.arch = some a := Slab.get_set_same hget a
+                have := h2.set_one (Y' := o.ser :: (rest.map (·.2.ser) ++ X)) hg
+                  { a with cols := a.cols.set j (col.set src.row x) } (fun s => by
+                    have e1 := count_cellSers_set a.cols j col (col.set src.row x) hc1 s
+                    have e2 := count_map_set col src.row x o hrow s
+                    simp only [List.map_cons, List.cons_append, List.count_cons, List.count_nil] at e2 ⊢
+                    omega)
+                rw [slab_set_set] at this
+                exact this
+              · obtain ⟨h1, h3, h4⟩ := hw
+                exact ⟨h1, h3, h4.set_col hc1 (by simp) rfl rfl⟩
+      · subst hw
+        exact ⟨⟨rfl, hcl.cln.set_one hget a0 fun s => Nat.le_refl _⟩, hidx0, hcl.cols _ _ hget⟩
+    · refine Hoare.bind (R := fun _ => CL X) ⟨fun w hw => ?_⟩ fun _ => KP.pure _
+      obtain ⟨⟨h1, h2⟩, h3, h4⟩ := hw
+      show CLF (w.archs.set a.index a) w.queue w.cdrops w.nextCSerial X
+      rw [h1, h3]
+      obtain ⟨i1, i2⟩ := idx_cols_set hcl.idx hcl.cols h3 h4
+      exact h2.clf i1 i2
+  · -- the merge between two archetypes
+    rename_i hne
+    have hne' : src.arch ≠ dst := by simpa using hne
+    refine Hoare.bind (getArch_spec _ _) fun sa => ?_
+    refine Hoare.bind (getArch_spec _ _) fun da => ?_
+    refine Hoare.bind (R := fun _ w => (CL (new.map (·.2.ser) ++ X) w ∧ w.archs.get src.arch = some sa) ∧
+      w.archs.get dst = some da) ⟨fun _ h => h⟩ fun ep => ?_
+    obtain ⟨hc, hi, hids⟩ := reserveOne_fields da ep
+    generalize da.reserveOne ep = rr at hc hi hids
+    obtain ⟨dr, realloc⟩ := rr
+    dsimp only at hc hi hids ⊢
+    split
+    · exact hoare_ubErr _
+    · rename_i r hr
+      refine Hoare.at_state fun w0 hw0 => ?_
+      obtain ⟨⟨hcl, hsa⟩, hda⟩ := hw0
+      have isa : sa.index = src.arch := hcl.idx _ _ hsa
+      have ida : da.index = dst := hcl.idx _ _ hda
+      obtain ⟨Ls, cs1, cs2⟩ := hcl.cols _ _ hsa
+      obtain ⟨Ld, cd1, cd2⟩ := hcl.cols _ _ hda
+      obtain ⟨m1, m2, m3⟩ := moveCols_src _ _ _ _ _ _ _ hr
+      have m4 := moveCols_dst _ _ _ _ _ _ _ hr Ld (by rw [hc]; exact cd1)
+      cases hE : sa.ids[src.row]? with
+      | none =>
+        -- the panic of `swap_remove`: nothing was dropped
+        have hnil : sa.cols = [] := by
+          cases hcs : sa.cols with
+          | nil => rfl
+          | cons c0 l =>
+            have := m1 c0 (by rw [hcs]; exact List.mem_cons_self ..)
+            have := cs1 c0 (by rw [hcs]; exact List.mem_cons_self ..)
+            have : sa.ids.length ≤ src.row := by
+              rcases Nat.lt_or_ge src.row sa.ids.length with h | h
+              · rw [List.getElem?_eq_getElem h] at hE; cases hE
+              · exact h
+            omega
+        rw [m2 hnil, List.zip_nil_right]
+        refine Hoare.bind (R := fun _ w => w = w0) (Hoare.pure fun _ h => h) fun _ => ?_
+        exact Hoare.throw fun w hw _ => by subst hw; exact CLF.drop_left hcl
+      | some eid =>
+        dsimp only
+        have hrow : src.row < sa.ids.length := (List.getElem?_eq_some_iff.1 hE).1
+        refine move_tail hcl hne' hsa hda _ _ ?_ ?_ ?_ ?_ _ ?_ _ ?_
+        · exact isa
+        · exact hi.trans ida
+        · refine ⟨Ls - 1, fun c hc' => m3 Ls cs1 c hc', ?_⟩
+          show Ls - 1 ≤ (swapRemove sa.ids src.row).length
+          rw [length_swapRemove]; omega
+        · refine ⟨Ld + 1, fun c hc' => m4 c hc', ?_⟩
+          show Ld + 1 ≤ (dr.ids ++ [eid]).length
+          rw [List.length_append, hids]; simp; exact cd2
+        · intro s
+          have e1 := moveCols_sers_le _ _ _ _ _ _ _ hr s
+          have e2 := count_zip_snd_le (List.filter (fun c => !dr.comps.contains c) sa.comps) r.dropped s
+          rw [hc] at e1
+          simp only [List.count_append] at e1 e2 ⊢
+          omega
+        · cl_keeps
+
+
+theorem dbgAssert_any {I E : World → Prop} (c : Bool) (s : String) :
+    Hoare I (dbgAssert c s) (fun _ => I) (PanicOnly E) := by
+  refine ⟨fun w hw => ?_⟩
+  rw [dbgAssert_run]
+  by_cases h : (w.debug && !c) = true
+  · rw [if_pos h]; exact fun hp => nomatch hp
+  · rw [if_neg h]; exact hw
+
+theorem removeEntity_cl (loc : Loc) : KP (CL X) (removeEntity loc) := by
+  unfold removeEntity
+  refine Hoare.bind (getArch_spec _ _) fun a => ?_
+  refine Hoare.at_state fun w0 hw0 => ?_
+  obtain ⟨hcl, hget⟩ := hw0
+  have hidx : a.index = loc.arch := hcl.idx _ _ hget
+  obtain ⟨L, c1, c2⟩ := hcl.cols _ _ hget
+  dsimp only
+  refine Hoare.bind (R := fun (acc : List (List Cell)) w =>
+    CLat w0.archs (w0.archs.set loc.arch { a with cols := acc ++ [] }) X w ∧ (∀ c ∈ acc, c.length = L - 1)) ?_
+    fun acc => ?_
+  · refine Hoare.post (Q := fun (acc : List (List Cell)) w =>
+      (CLat w0.archs (w0.archs.set loc.arch { a with cols := acc ++ [] }) X w ∧ (∀ c ∈ acc, c.length = L - 1)) ∧
+        ∀ p ∈ ([] : List (Nat × List Cell)), p.2.length = L) ?_ (fun _ _ h => h.1) (fun _ _ h => h)
+    refine Hoare.pre (Hoare.forIn_list_sfx (fun (rest : List (Nat × List Cell)) (acc : List (List Cell)) w =>
+      (CLat w0.archs (w0.archs.set loc.arch { a with cols := acc ++ rest.map (·.2) }) X w ∧
+        (∀ c ∈ acc, c.length = L - 1)) ∧ ∀ p ∈ rest, p.2.length = L)
+      (fun p rest acc => ?_) _ []) (fun w hw => ?_)
+    · obtain ⟨c, col⟩ := p
+      dsimp only
+      split
+      · exact Hoare.bind (dbgAssert_any _ _) fun _ => hoare_ubErr_bind _ _
+      · rename_i x hx
+        refine Hoare.bind (R := fun _ w => (CLat w0.archs (w0.archs.set loc.arch
+            { a with cols := (acc ++ [swapRemove col loc.row]) ++ rest.map (·.2) }) X w ∧
+            (∀ c ∈ acc, c.length = L - 1)) ∧ ∀ p ∈ (c, col) :: rest, p.2.length = L)
+          (Hoare.pre (Hoare.and_pure (Hoare.and_pure (dropCellIdx_at _ _ c x _))) fun w hw => ?_)
+          fun _ => Hoare.pure fun w hw => ?_
+        · obtain ⟨⟨⟨h1, h2⟩, h3⟩, h4⟩ := hw
+          refine ⟨⟨⟨h1, ?_⟩, h3⟩, h4⟩
+          have hg := Slab.get_set_same hget
+            ({ a with cols := acc ++ List.map (·.2) ((c, col) :: rest) } : Arch)
+          have := h2.set_one (Y' := x.ser :: X) hg
+            { a with cols := (acc ++ [swapRemove col loc.row]) ++ rest.map (·.2) } (fun s => by
+              have e := count_map_swapRemove col loc.row x hx s
+              simp only [List.map_cons, cellSers_append, cellSers_cons, cellSers_nil, List.count_append,
+                List.count_cons, List.count_nil] at e ⊢
+              omega)
+          rw [slab_set_set] at this
+          exact this
+        · obtain ⟨⟨h1, h3⟩, h4⟩ := hw
+          refine ⟨⟨h1, fun d hd => ?_⟩, fun p hp => h4 p (List.mem_cons_of_mem _ hp)⟩
+          rcases List.mem_append.1 hd with hd | hd
+          · exact h3 d hd
+          · rw [List.mem_singleton.1 hd, length_swapRemove, h4 (c, col) (List.mem_cons_self ..)]
+    · subst hw
+      refine ⟨⟨⟨rfl, hcl.cln.set_one hget _ fun s => ?_⟩, fun c hc => nomatch hc⟩, fun p hp => ?_⟩
+      · have := count_cellSers_zip_le a.comps a.cols s
+        simp only [List.nil_append]
+        omega
+      · exact c1 _ (List.of_mem_zip hp).2
+  · split
+    · exact hoare_ubErr _
+    · rename_i id hid
+      have hrow : loc.row < a.ids.length := (List.getElem?_eq_some_iff.1 hid).1
+      refine Hoare.bind (R := fun _ => CL X) ⟨fun w hw => ?_⟩ fun _ => by cl_keeps
+      obtain ⟨⟨h1, h2⟩, h3⟩ := hw
+      have e : ∀ b : Arch, b.index = loc.arch → w.archs.set b.index b = w0.archs.set loc.arch b :=
+        fun b hb => by rw [h1, hb]
+      show CLF (w.archs.set _ _) w.queue w.cdrops w.nextCSerial X
+      rw [e { a with cols := acc, ids := swapRemove a.ids loc.row } hidx]
+      have hg := Slab.get_set_same hget ({ a with cols := acc ++ [] } : Arch)
+      have := h2.set_one (Y' := X) hg { a with cols := acc, ids := swapRemove a.ids loc.row } (fun s => by
+        simp only [List.append_nil]; exact Nat.le_refl _)
+      rw [slab_set_set] at this
+      obtain ⟨i1, i2⟩ := idx_cols_set (a' := { a with cols := acc, ids := swapRemove a.ids loc.row })
+        hcl.idx hcl.cols hidx ⟨L - 1, h3, by
+          show L - 1 ≤ (swapRemove a.ids loc.row).length
+          rw [length_swapRemove]; omega⟩
+      exact this.clf i1 i2
+
+macro_rules | `(tactic| cl_leaf) => `(tactic| exact archSpawn_cl _)
+macro_rules | `(tactic| cl_leaf) => `(tactic| exact spawnAll_cl)
+macro_rules | `(tactic| cl_leaf) => `(tactic| exact newArch_cl _ _ _)
+macro_rules | `(tactic| cl_leaf) => `(tactic| exact traverseInsert_cl _ _)
+macro_rules | `(tactic| cl_leaf) => `(tactic| exact traverseRemove_cl _ _)
+macro_rules | `(tactic| cl_leaf) => `(tactic| exact bumpCell_cl _ _ _)
+macro_rules | `(tactic| cl_leaf) => `(tactic| exact removeEntity_cl _)
+
+/-- `moveEntity` without new cells (the `Remove` effect) -/
+theorem moveEntity_cl_nil (src : Loc) (dst : Nat) : KP (CL X) (moveEntity src dst []) := moveEntity_cl src dst []
+macro_rules | `(tactic| cl_leaf) => `(tactic| exact moveEntity_cl_nil _ _)
 
 end Evenio.CompLedger
